@@ -37,6 +37,8 @@ import (
 	"testing"
 	"time"
 
+	"github.com/golang/protobuf/proto"
+	"github.com/pingcap/kvproto/pkg/pdpb"
 	"github.com/tikv/pd/pkg/mock/mockcluster"
 	"github.com/tikv/pd/server/core"
 	"github.com/tikv/pd/server/schedule/operator"
@@ -324,6 +326,103 @@ func genStoreEvents(t *rapid.T, nStores, steps int) []StoreEvent {
 	return out
 }
 
+// RegionEvent changes a region "by other means" (another scheduler, a checker, an
+// election) between two uses of the object under test: the simulator executes the change and
+// the new region is put into the cluster as its heartbeat would.
+//
+//	move    a non-leader peer (index Peer among them) moves to store index Target — only if that
+//	        store holds no peer of the region, accepts peers and is of the same kind (engine /
+//	        exclusive labels) as the source store; otherwise the event is skipped
+//	leader  the leader moves to the Peer-th other voter if its store accepts leaders
+type RegionEvent struct {
+	At     int    `json:"at"`
+	Region int    `json:"region"`
+	Kind   string `json:"kind"`
+	Peer   int    `json:"peer"`
+	Target int    `json:"target,omitempty"`
+}
+
+func genRegionEvents(t *rapid.T, nStores, nRegions, steps int) []RegionEvent {
+	if steps < 2 || !simkit.Pct(t, 35, "regionEvents") {
+		return nil
+	}
+	var out []RegionEvent
+	n := simkit.IntU(t, 1, 6, "nRegionEvents")
+	at := simkit.IntU(t, 1, steps-1, "regionEventAt")
+	for i := 0; i < n; i++ {
+		if simkit.Pct(t, 25, "regionEventOtherAt") {
+			at = simkit.IntU(t, 1, steps-1, "regionEventAt2")
+		}
+		out = append(out, RegionEvent{At: at, Region: simkit.IntU(t, 0, nRegions-1, "evRegion"),
+			Kind: simkit.Pick(t, []string{"move", "move", "move", "leader"}, "evRegionKind"),
+			Peer: simkit.IntU(t, 0, 5, "evPeer"), Target: simkit.IntU(t, 0, nStores-1, "evTarget")})
+	}
+	return out
+}
+
+// applyRegionEvents executes the region events scheduled before step `at`; it returns how many took effect.
+func (l *live) applyRegionEvents(evs []RegionEvent, at int) (int, error) {
+	done := 0
+	for _, ev := range evs {
+		if ev.At != at || len(l.order) == 0 {
+			continue
+		}
+		sim := l.sims[l.order[((ev.Region%len(l.order))+len(l.order))%len(l.order)]]
+		if sim.InJoint() || sim.LeaderStore() == 0 {
+			continue
+		}
+		switch ev.Kind {
+		case "move":
+			var cands []simkit.Peer
+			for _, p := range sim.Peers {
+				if p.ID != sim.Leader && (p.Role == simkit.Voter || p.Role == simkit.Learner) {
+					cands = append(cands, p)
+				}
+			}
+			if len(cands) == 0 || len(l.spec.Stores) == 0 {
+				continue
+			}
+			p := cands[((ev.Peer%len(cands))+len(cands))%len(cands)]
+			tgt := &l.spec.Stores[((ev.Target%len(l.spec.Stores))+len(l.spec.Stores))%len(l.spec.Stores)]
+			src := l.spec.Store(p.Store)
+			if src == nil || sim.PeerOnStore(tgt.ID) != nil || !l.spec.AcceptsPeer(tgt.ID) ||
+				isTiFlash(src) != isTiFlash(tgt) || src.HasExclusiveLabel() != tgt.HasExclusiveLabel() {
+				continue
+			}
+			id := sim.IDs.Next()
+			if err := sim.AddLearner(id, tgt.ID); err != nil {
+				return done, fmt.Errorf("harness: region event %+v: %v", ev, err)
+			}
+			if p.Role == simkit.Voter {
+				if err := sim.Promote(tgt.ID, id); err != nil {
+					return done, fmt.Errorf("harness: region event %+v: %v", ev, err)
+				}
+			}
+			if err := sim.Remove(p.Store, p.ID); err != nil {
+				return done, fmt.Errorf("harness: region event %+v: %v", ev, err)
+			}
+		case "leader":
+			var cands []simkit.Peer
+			for _, p := range sim.Peers {
+				if p.ID != sim.Leader && p.Role == simkit.Voter && l.spec.AcceptsLeader(p.Store) && !rejectsLeader(&l.spec, p.Store) {
+					cands = append(cands, p)
+				}
+			}
+			if len(cands) == 0 {
+				continue
+			}
+			if err := sim.TransferLeader(cands[((ev.Peer%len(cands))+len(cands))%len(cands)].Store); err != nil {
+				return done, fmt.Errorf("harness: region event %+v: %v", ev, err)
+			}
+		default:
+			continue
+		}
+		l.mc.PutRegion(sim.ToRegionInfo())
+		done++
+	}
+	return done, nil
+}
+
 // applyEvents applies the events scheduled before step `at` to the mock cluster and to
 // the execution's spec. It returns how many stores went from connected to silent/down.
 func (l *live) applyEvents(evs []StoreEvent, at int) int {
@@ -367,6 +466,13 @@ func (l *live) applyEvents(evs []StoreEvent, at int) int {
 			case "revive":
 				ts = time.Now()
 				sp.HeartbeatAgeSec = simkit.AgeFresh
+			case "busy", "unbusy":
+				// the busy flag of the store heartbeat changes; the last heartbeat stays as it is
+				sp.Busy = ev.Kind == "busy"
+				stats := proto.Clone(st.GetStoreStats()).(*pdpb.StoreStats)
+				stats.IsBusy = sp.Busy
+				l.mc.PutStore(st.Clone(core.SetStoreStats(stats)))
+				continue
 			default:
 				continue
 			}
